@@ -1,6 +1,7 @@
 package vsync
 
 import (
+	"strconv"
 	"fmt"
 	"hash/fnv"
 	"os"
@@ -206,6 +207,9 @@ func unpackPrefix(b []byte) []Point {
 // Explore enumerates every schedule / environment choice of cfg.Body with at
 // most cfg.Bound preemptions, in order of increasing preemption count.
 func Explore(t *testing.T, cfg *Config) *Result {
+	if n, _ := strconv.Atoi(os.Getenv("VERIF_FREERUN")); n > 0 {
+		return freeRun(t, cfg, n)
+	}
 	res := &Result{Name: cfg.Name, BoundCompleted: -1}
 	stacks := make([][]item, cfg.Bound+1)
 	stacks[0] = []item{{}}
@@ -373,5 +377,30 @@ func Explore(t *testing.T, cfg *Config) *Result {
 	res.States = len(states)
 	res.DistinctOutcomes = len(outcomes)
 	res.Exhaustive = !capped && res.BoundCompleted == cfg.Bound && res.Hangs == 0
+	return res
+}
+
+
+// freeRun executes the scenario body n times WITHOUT the scheduler (real
+// goroutines, real locks, virtual time) for the separate race-detector pass:
+// under the cooperative scheduler every hand-off is a happens-before edge, so
+// the race detector can only see unsynchronised accesses in a free run.
+// Nothing is decided here.
+func freeRun(t *testing.T, cfg *Config, n int) *Result {
+	res := &Result{Name: cfg.Name, BoundCompleted: cfg.Bound}
+	freeMode.Store(true)
+	defer freeMode.Store(false)
+	for i := 0; i < n; i++ {
+		func() {
+			defer func() {
+				if r := recover(); r != nil {
+					fmt.Printf("freerun: %s iteration %d: %v\n", cfg.Name, i, r)
+				}
+			}()
+			freeCtr.Store(uint64(i) * 7919)
+			synctest.Test(t, func(t *testing.T) { cfg.Body() })
+		}()
+		res.Executions++
+	}
 	return res
 }
